@@ -88,6 +88,18 @@ def check(chk):
     chk.ob("TABLE-6", "the YAML writer and the YAML reader open the file with the same explicitly named text encoding", ok, ys.where(), detail=str(encs),
            construct=ys.ident, text="yaml encoding agreement")
 
+    # what is loaded is what was written: to_plain_dict turns ruamel's map / sequence types into plain dict / list and leaves every other
+    # value as it is (a set is written as !!set and must come back as a set)
+    tp = repo.func(YI, "YamlInterface.to_plain_dict")
+    chk.analysed(tp)
+    tests = [x for x in walk_local(tp.node) if isinstance(x, ast.Call) and isinstance(x.func, ast.Name) and x.func.id == "isinstance" and len(x.args) == 2]
+    kinds = sorted(src(x.args[1]) for x in tests)
+    rets = [x for x in walk_local(tp.node) if isinstance(x, ast.Return) and x.value is not None]
+    ok = kinds == ["dict", "list"] and any(src(r.value) == "data" for r in rets) and any(isinstance(r.value, ast.DictComp) for r in rets) and \
+        any(isinstance(r.value, ast.ListComp) for r in rets)
+    chk.ob("TABLE-6", "loading converts exactly maps to dict and sequences to list; every other value (set, tuple, scalar) is returned as it is", ok, tp.where(),
+           detail="isinstance tests on %s" % kinds, construct=tp.ident, text="to_plain_dict conversions")
+
     # the dumper is created per write: a module-level ruamel YAML instance keeps its emitter bound to the closed stream
     # after one failed dump and every later save in the process fails (F17)
     dumps = [c for c in ys.calls() if call_attr(c) == "dump"]
@@ -138,6 +150,13 @@ def check(chk):
             isinstance(y, (ast.Break, ast.Return, ast.Raise)) for h in tries[0].handlers for y in ast.walk(h))
         chk.ob("DOM-30", "a failing write is caught inside the loop and the writer carries on", ok, t.where(c),
                detail="otherwise the thread dies and all later saves are silently lost", construct=t.ident, text="failure isolation")
+        # ... and the handler itself cannot raise: it only logs through the plain log calls (ignorable_runtime_exception / raise_config_error raise
+        # when the console log level is `full`: the writer thread would die at the first failed write)
+        PLAIN_LOGS = {"info_log", "warning_log", "error_log", "debug_log", "info", "warning", "error", "debug", "exception", "format"}
+        hcalls = [y for h in (tries[0].handlers if tries else []) for y in ast.walk(h) if isinstance(y, ast.Call)]
+        risky = [y for y in hcalls if (call_attr(y) or getattr(y.func, "id", "")) not in PLAIN_LOGS]
+        chk.ob("DOM-30", "the handler of a failed write only logs (nothing in it can raise and end the writer thread)", bool(tries) and not risky,
+               t.where(risky[0]) if risky else t.where(c), detail=", ".join(short(y, 50) for y in risky), construct=t.ident, text="writer failure handler may raise")
     waits = [n for n in cfg.nodes_where(lambda n: n.kind == "test" and "self._dirty.wait(" in src(n.ast))]
     chk.ob("FLOW-6", "the writer sleeps on the dirty flag", bool(waits), t.where(), construct=t.ident, text="dirty wait")
     for n, c in lsaves:
@@ -376,6 +395,8 @@ def battery():
         M("machine shut down before the shutdown handlers ran", "mpf/core/machine.py", "        self.events.process_event_queue()\n        self.shutdown()", "        self.shutdown()\n        self.events.process_event_queue()", "PAIR-18"),
         M("shutdown flush skipped while another manager writes", DM, "        if self._dirty.is_set():\n            while FileManager.is_busy:\n                time.sleep(0.2)\n            self._dirty.clear()\n            FileManager.save(self.filename, copy.deepcopy(self.data))", "        if self._dirty.is_set() and not FileManager.is_busy:\n            self._dirty.clear()\n            FileManager.save(self.filename, copy.deepcopy(self.data))", "DEAD-4"),
         M("configure_machine_var deadline from the loop clock", MV, "timeout = expire_secs + self.machine.clock.get_datetime().timestamp() if expire_secs else None", "timeout = expire_secs + self.machine.clock.get_time() if expire_secs else None", "FLOW-6"),
+        M("writer failure handler can raise", DM, "                self.info_log(\"ERROR writing file %s: %s\", self.filename, e)", "                self.ignorable_runtime_exception(\"ERROR writing file {}: {}\".format(self.filename, e))", "DOM-30"),
+        M("loaded sets come back as lists", YI, "        if isinstance(data, list):\n            return [YamlInterface.to_plain_dict(item) for item in data]", "        if isinstance(data, (list, tuple, set)):\n            return [YamlInterface.to_plain_dict(item) for item in data]", "TABLE-6"),
     ]
 
 
